@@ -3,6 +3,7 @@ import XrsVerif.Proofs.Jenks
 import XrsVerif.Proofs.KSimp
 import XrsVerif.Gen.ClassifyFacts
 import XrsVerif.Gen.Kernels
+import XrsVerif.Model.PyNum
 /-
   C12 -- Classifiers label every finite cell, in order, within [0, k-1].
 
@@ -170,6 +171,47 @@ theorem reclassify_nan_only_above_last (bins : List (Ext K)) (hne : bins ≠ [])
     firstGEx bins x = none ↔ Ext.lt (bins.getLast hne) (.fin x) = true :=
   firstGEx_none_iff bins x hne hasc
 
+/-! #### the wrapper `_run_numpy_bin`: the comparison is between the numbers themselves only as long as no
+    operand is rounded on the way to `_cpu_bin` -/
+
+/-- **no operand is rounded ⇒ first bin**: whatever casts `_run_numpy_bin` contains (`c`), if they leave the
+    bins, the cell and the new values of *this call* unchanged (`np.asarray(x)`; a cast to a dtype that holds the
+    operand exactly), a finite cell gets the new value of the first bin whose upper bound is `>=` the cell -/
+theorem run_numpy_bin_first_bin (c : BinCasts) (rnd : String → Ext K → Ext K) (ddt : String)
+    (bins newv : List (Ext K)) (x : K) (hne : bins ≠ []) (hasc : ExtAscending bins)
+    (hb : ∀ b ∈ bins, c.bins.apply rnd ddt b = b) (hn : ∀ w ∈ newv, c.newValues.apply rnd ddt w = w)
+    (hv : c.data.apply rnd ddt (.fin x) = .fin x) :
+    runNumpyBin Gen.cpuBinShape c rnd ddt bins newv (.fin x) =
+      match firstGEx bins x with | some i => getW .nan newv (i : Int) | none => .nan := by
+  unfold runNumpyBin
+  rw [hv, List.map_congr_left hb, List.map_congr_left hn, List.map_id', List.map_id']
+  exact reclassify_spec bins newv hne hasc x
+
+/-- what was read from the source: `_run_numpy_bin` re-binds `bins` and `new_values` with `np.asarray(x)` (no
+    dtype: nothing is rounded), leaves `data` alone and returns `_cpu_bin(data, bins, new_values)`; `reclassify`,
+    `_bin` and the dask wrapper pass the three operands on untouched.  (A `dtype=` argument, an `astype`, or any
+    statement the extractor does not understand makes this `decide` fail.) -/
+theorem bin_operands_not_cast :
+    Gen.runBinCasts = { data := .none, bins := .none, newValues := .none, callOk := true } ∧
+    Gen.binChainPassThrough = true := by decide
+
+/-- **reclassify through the wrapper as it is in the source**: for every conversion function, every raster
+    dtype, every ascending NaN-free bin list: first bin `>=` the value, NaN above the last bin / for NaN, ±inf -/
+theorem reclassify_first_bin (rnd : String → Ext K → Ext K) (ddt : String) (bins newv : List (Ext K)) :
+    (∀ v, v.isFinite = false → runNumpyBin Gen.cpuBinShape Gen.runBinCasts rnd ddt bins newv v = .nan) ∧
+    (bins ≠ [] → ExtAscending bins → ∀ x : K,
+      runNumpyBin Gen.cpuBinShape Gen.runBinCasts rnd ddt bins newv (.fin x) =
+        match firstGEx bins x with | some i => getW .nan newv (i : Int) | none => .nan) := by
+  have hc := (bin_operands_not_cast).1
+  refine ⟨?_, ?_⟩
+  · intro v hv
+    unfold runNumpyBin
+    rw [hc]
+    simp only [Cast.apply]
+    exact reclassify_nonfinite _ _ v hv
+  · intro hne hasc x
+    apply run_numpy_bin_first_bin _ rnd ddt bins newv x hne hasc <;> intros <;> rw [hc] <;> rfl
+
 example : ExtAscending [Ext.fin (10 : Int), .fin 15, .pinf] := by
   refine ⟨by decide, by decide⟩
 example : cellS Gen.cpuBinShape [Ext.fin (10 : Int), .fin 15, .pinf] [.fin 1, .fin 2, .fin 3] (.fin 16) = .fin 3 := by
@@ -177,6 +219,17 @@ example : cellS Gen.cpuBinShape [Ext.fin (10 : Int), .fin 15, .pinf] [.fin 1, .f
 example : cellS Gen.cpuBinShape [Ext.fin (10 : Int), .fin 15] [.fin 1, .fin 2] (.fin 16) = .nan := by decide
 
 end reclass
+
+/-- **why a narrowing cast breaks the property** (the hypotheses `hb` of `run_numpy_bin_first_bin` are needed):
+    a wrapper that converts the bins to the raster's dtype, on a float32 raster.  The bound 0.1 is not a float32;
+    its conversion is 13421773 / 2^27 > 0.1.  The cell holding exactly that float32 is above the bound 0.1, so its
+    first bin is the second one -- the converted bins put it into the first. -/
+theorem narrowing_cast_breaks_first_bin :
+    runNumpyBin Gen.cpuBinShape { data := .none, bins := .dataDtype, newValues := .none, callOk := true }
+        (fun t v => match v with | .fin q => if t = "float32" then .fin (roundF32 q) else v | _ => v) "float32"
+        [.fin (1 / 10), .fin (1 / 5)] [.fin 10, .fin 20] (.fin (13421773 / 134217728 : Rat)) = .fin 10 ∧
+    firstGEx [Ext.fin (1 / 10 : Rat), .fin (1 / 5)] (13421773 / 134217728) = some 1 ∧
+    roundF32 (1 / 10) = 13421773 / 134217728 := by decide +kernel
 
 /-! ### binary (generated kernel): 1 exactly on the listed values, NaN for NaN, else 0
     (`NV` has no ±inf; `np.isfinite` is modelled by `Fl.isfinite`, the correspondence run covers ±inf) -/
@@ -336,6 +389,21 @@ theorem quantile_spec (cells : List (Ext Rat)) (qs : List Rat) (k : Nat) (hk : q
   rw [cellS_gen, cell_classIds _ hune (hsorted.imp le_of_lt)]
   split <;> omega
 
+/-- **quantile classes are the k percentile bands**: when the `k` percentile values numpy returned for
+    `100/k, 200/k, …, 100` are pairwise different (no band is empty of range), they *are* the bins, there are
+    exactly `k` classes, and class `i` is the band between consecutive percentiles:
+    `P(100·i/k) < x ≤ P(100·(i+1)/k)` (class 0: everything up to the first percentile).  With equal percentile
+    values (`quantile_spec`) the equal ones collapse into one band and the classes are renumbered `0 … len−1`. -/
+theorem quantile_percentile_bands (cells : List (Ext Rat)) (qs : List Rat) (k : Nat) (hk : qs.length = k) (hne : qs ≠ [])
+    (hasc : qs.Pairwise (· < ·)) :
+    Bin.quantile Gen.cpuBinShape cells qs k = .ok (cells.map (classOf qs)) qs ∧
+    ∀ (x : Rat) (i : Nat), classOf qs (.fin x) = .fin (i : Rat) ↔
+      ∃ h : i < qs.length, x ≤ qs[i] ∧ (i = 0 ∨ ∃ h' : i - 1 < qs.length, qs[i - 1] < x) := by
+  have hu := uniq_of_sorted qs hasc
+  have := (quantile_spec cells qs k hk hne).1
+  rw [hu] at this
+  exact ⟨this, fun x i => classOf_band qs (hasc.imp le_of_lt) x i⟩
+
 /-- the percentile at 100 is the maximum, so the last bin is the maximum ... -/
 theorem quantile_last_is_max (qs : List Rat) (mx : Rat) (hmem : mx ∈ qs) (hle : ∀ q ∈ qs, q ≤ mx)
     (hne : uniq qs ≠ []) : (uniq qs).getLast hne = mx := by
@@ -358,6 +426,7 @@ theorem quantile_every_finite_classified (cells : List (Ext Rat)) (qs : List Rat
   have := uniq_length qs
   exact ⟨i, by omega, h⟩
 
+example : ([1, 2, 4] : List Rat).Pairwise (· < ·) := by decide +kernel
 example : Bin.quantile Gen.cpuBinShape [.fin 0, .fin 1, .fin 2, .fin 3, .fin 4, .ninf] [1, 2, 2, 4] 4 =
     .ok [.fin 0, .fin 0, .fin 1, .fin 2, .fin 2, .nan] [1, 2, 4] := by decide +kernel
 
@@ -397,16 +466,30 @@ theorem jenks_breaks_are_class_maxima (xs : List Rat) (k : Nat) (hn : 1 ≤ xs.l
       uppers (fun i => xs.getD i 0) xs.length (back (fun i => xs.getD i 0) xs.length (k - 1) xs.length)) :=
   kclass_eq xs k hn hk hfull
 
+/-- **every class is used**: on ascending data with at least `k − 1` strict ascents (i.e. at least `k` different
+    values) the back-tracked optimal partition has exactly `k` classes -- a partition with fewer could be refined
+    at an ascent inside one of its classes, strictly lowering the sum of squared deviations (`ssd_split_ascent`),
+    which contradicts optimality.  This discharges the hypothesis `hfull` of `jenks_breaks_are_class_maxima`. -/
+theorem jenks_uses_all_classes (x : Nat → Rat) (n k : Nat) (hs : Sorted x n) (hn : 1 ≤ n) (hk : 1 ≤ k)
+    (ha : k ≤ asc x n + 1) : (back x n (k - 1) n).length = k :=
+  back_full x n k hs hn hk ha
+
+/-- ... in terms of the sample: at least `k` different values (the branch condition `uvk >= k` of
+    `_run_natural_break`) -/
+theorem jenks_uses_all_classes_of_sample (sample : List Rat) (k : Nat) (hk : 1 ≤ k) (hku : k ≤ (uniq sample).length) :
+    (back (fun i => (sortQ sample).getD i 0) (sortQ sample).length (k - 1) (sortQ sample).length).length = k :=
+  sample_full sample k hk hku
+
 /-- **natural_breaks, Jenks branch** (at least `k` distinct sample values; breaks stored exactly,
     `breaks_stored_exactly`): the bins are the class maxima of the optimal partition of the sorted sample with
     the last one replaced by the raster maximum `mx`; they ascend, there are `k` of them, `mx` is one of them,
     and every cell is classified by `classOf` -/
 theorem natural_breaks_spec (cells : List (Ext Rat)) (sample : List Rat) (k : Nat) (mx : Rat)
     (hmx : maxQ (finiteVals cells) = some mx) (hsub : ∀ s ∈ sample, s ≤ mx) (hne : sample ≠ [])
-    (hk : 1 ≤ k) (hku : ¬ (uniq sample).length < k)
-    (hfull : (back (fun i => (sortQ sample).getD i 0) (sortQ sample).length (k - 1) (sortQ sample).length).length = k) :
+    (hk : 1 ≤ k) (hku : ¬ (uniq sample).length < k) :
     ∃ bins, naturalBreaks Gen.cpuBinShape id cells sample k = .ok (cells.map (classOf bins)) bins ∧
       bins.Pairwise (· ≤ ·) ∧ bins.length = k ∧ mx ∈ bins := by
+  have hfull := sample_full sample k hk (by omega)
   obtain ⟨hss, hsm⟩ := sortQ_sorted sample
   have hlen : 1 ≤ (sortQ sample).length := by
     obtain ⟨a, ha⟩ := List.exists_mem_of_ne_nil sample hne
@@ -472,6 +555,10 @@ example : naturalBreaks Gen.cpuBinShape (fun q => if q = 5 then 4 else q) [.fin 
 example : naturalBreaks Gen.cpuBinShape id [.fin 1, .fin 2, .fin 4, .fin 5, .pinf] [1, 2, 4, 5] 2 =
     .ok [.fin 0, .fin 0, .fin 1, .fin 1, .nan] [2, 5] := by decide +kernel
 example : (back (fun i => [1, 2, 4, (5 : Rat)].getD i 0) 4 1 4).length = 2 := by decide +kernel
+-- three strict ascents among 1, 2, 4, 5 (four different values): `jenks_uses_all_classes` applies for every k <= 4
+example : asc (fun i => [1, 2, 4, (5 : Rat)].getD i 0) 4 = 3 := by decide +kernel
+example : Sorted (fun i => [1, 2, 4, (5 : Rat)].getD i 0) 4 :=
+  fun i j hij hj => getD_sorted [1, 2, 4, 5] (by decide +kernel) i j hij hj
 -- the sample [0] of the raster [5, 0]: the fallback branch still classifies the maximum
 example : naturalBreaks Gen.cpuBinShape id [.fin 5, .fin 0] [0] 3 = .ok [.fin 1, .fin 0] [0, 5] := by decide +kernel
 example : naturalBreaks Gen.cpuBinShape id [.fin 5, .nan] [] 3 = .ok [.fin 0, .nan] [5] := by decide +kernel
